@@ -1631,6 +1631,36 @@ impl<'a> Gen<'a> {
                     f.len() >= 2 && f.iter().all(|u| *u == f[0])
                 })
                 .collect();
+            // Remap functions: a match that rebuilds each variant of an enum as another variant
+            // with the same payload type, passing the payload through.
+            let remappable: Vec<usize> = (0..self.prog.enums.len())
+                .filter(|e| {
+                    let vs = &self.prog.enums[*e];
+                    (0..vs.len()).any(|i| (0..vs.len()).any(|j| i != j && vs[i] == vs[j]))
+                })
+                .collect();
+            if !remappable.is_empty() && self.ch.chance(2, 3) {
+                let en = remappable[self.ch.below(remappable.len())];
+                let vs = self.prog.enums[en].clone();
+                let mut arms = vec![];
+                for (i, v) in vs.iter().enumerate() {
+                    let class: Vec<usize> = (0..vs.len()).filter(|j| vs[*j] == *v).collect();
+                    let pos = class.iter().position(|j| *j == i).unwrap();
+                    let target = if self.ch.chance(3, 4) { class[(pos + 1) % class.len()] } else { i };
+                    match v {
+                        Some(_) => {
+                            let n = self.fresh("p");
+                            arms.push((Some(n.clone()), Block { stmts: vec![], tail: Expr::EnumLit(en, target, Some(Box::new(Expr::Var(n)))) }));
+                        }
+                        None => arms.push((None, Block { stmts: vec![], tail: Expr::EnumLit(en, target, None) })),
+                    }
+                }
+                self.stats.shuffle_functions += 1;
+                let pty = Ty::Enum(en);
+                self.shuffles.push((idx, pty.clone(), false));
+                let tail = Expr::MatchEnum(en, Box::new(Expr::Var(x.clone())), arms);
+                return Func { params: vec![Param::Val(x, pty.clone())], ret: pty, body: Block { stmts: vec![], tail }, inline: self.ch.below(3) as u8, recursive: false };
+            }
             let (pty, tail) = if !same.is_empty() && self.ch.bool() {
                 let sid = same[self.ch.below(same.len())];
                 let n = self.prog.structs[sid].len();
@@ -1758,6 +1788,34 @@ impl<'a> Gen<'a> {
                         Ty::Struct(sid) => self.prog.structs[*sid].iter().enumerate().map(|(i, t)| (t.clone(), Expr::Field(Box::new(Expr::Var(name.clone())), *sid, i))).collect(),
                         _ => vec![],
                     };
+                    if let Ty::Enum(en) = &pty {
+                        // The variant (and a scalar payload) of a remapped enum becomes a scalar.
+                        let vs = self.prog.enums[*en].clone();
+                        let mut arms = vec![];
+                        for (i, v) in vs.iter().enumerate() {
+                            let tag = Expr::Lit(Ty::Felt, BigInt::from(i + 1));
+                            match v {
+                                Some(t) => {
+                                    let n = self.fresh("p");
+                                    let tail = match t {
+                                        Ty::Felt => Expr::Bin(BinOp::Add, Ty::Felt, Box::new(tag), Box::new(Expr::Bin(BinOp::Mul, Ty::Felt, Box::new(Expr::Var(n.clone())), Box::new(Expr::Lit(Ty::Felt, BigInt::from(16)))))),
+                                        Ty::Bool | Ty::U(_) | Ty::I(_) => Expr::Bin(
+                                            BinOp::Add,
+                                            Ty::Felt,
+                                            Box::new(tag),
+                                            Box::new(Expr::Bin(BinOp::Mul, Ty::Felt, Box::new(Expr::Into(t.clone(), Ty::Felt, Box::new(Expr::Var(n.clone())))), Box::new(Expr::Lit(Ty::Felt, BigInt::from(16))))),
+                                        ),
+                                        _ => tag,
+                                    };
+                                    arms.push((Some(n), Block { stmts: vec![], tail }));
+                                }
+                                None => arms.push((None, Block { stmts: vec![], tail: tag })),
+                            }
+                        }
+                        let m = self.fresh("shm");
+                        stmts.push(Stmt::Let(m.clone(), false, Ty::Felt, Expr::MatchEnum(*en, Box::new(Expr::Var(name.clone())), arms)));
+                        e2.vars.push(VarInfo { name: m, ty: Ty::Felt, mutable: false });
+                    }
                     for (t, e) in members {
                         if t.is_scalar() {
                             let m = self.fresh("shm");
@@ -2039,7 +2097,19 @@ pub fn generate(ch: &mut Choices) -> (Program, GenStats) {
     let ne = g.ch.below(3);
     for _ in 0..ne {
         let nv = 1 + g.ch.below(4);
-        let vars = (0..nv).map(|_| if g.ch.bool() { Some(g.any_ty(1)) } else { None }).collect();
+        // A later variant repeats an earlier variant's payload type half of the time (variants
+        // that can be mapped onto each other, see the remap functions).
+        let mut vars: Vec<Option<Ty>> = vec![];
+        for _ in 0..nv {
+            let earlier: Vec<Ty> = vars.iter().flatten().cloned().collect();
+            if !earlier.is_empty() && g.ch.bool() {
+                vars.push(Some(earlier[g.ch.below(earlier.len())].clone()));
+            } else if g.ch.bool() {
+                vars.push(Some(g.any_ty(1)));
+            } else {
+                vars.push(None);
+            }
+        }
         g.prog.enums.push(vars);
     }
     let nc = g.ch.below(3);
